@@ -129,6 +129,12 @@ def _observe(col, lens_now, sig):
                 f"the concatenation (it is at position {next((k for k, m in enumerate(concat) if m is got), None)})")
     dl = call(f"{sig}:dataset_lengths", lambda: list(col.dataset_lengths))
     require(dl == [len(d.mazes) for d in members], f"{sig}:dataset_lengths", f"{dl} vs {[len(d.mazes) for d in members]}")
+    # the reported maze count: whenever every member configuration the collection lists states the number of mazes that member holds
+    # right now (read from the objects directly), the collection's own reported count agrees with its length
+    listed = getattr(col.cfg, "maze_dataset_configs", None)
+    if listed is not None and len(listed) == len(members) and all(vars(c).get("n_mazes") == len(d.mazes) for c, d in zip(listed, members)):
+        nm = call(f"{sig}:cfg.n_mazes", lambda: col.cfg.n_mazes)
+        require(nm == len(concat), f"{sig}:counts-disagree", f"cfg.n_mazes={nm} although every listed member configuration is up to date: members hold {dl}")
 
 
 def check_history(case: dict):
@@ -172,6 +178,19 @@ def check_history(case: dict):
             edited = True
         elif kind == "update":
             call("C16:history:update_self_config", col.update_self_config)
+        elif kind == "member_update":
+            # only the member's own configuration is brought up to date (what a filter applied to that member does)
+            ds = col.maze_datasets[op[1] % len(col.maze_datasets)]
+            call("C16:history:member-update_self_config", ds.update_self_config)
+        elif kind == "tokens":
+            # the collection is tokenized, possibly only its first few mazes; what comes out is C07's business - here only: the
+            # collection still agrees with its members afterwards
+            from maze_dataset.tokenization import MazeTokenizerModular
+
+            try:
+                col.as_tokens(MazeTokenizerModular(), op[1], bool(op[2]))
+            except Exception:  # noqa: BLE001
+                pass
         elif kind == "serialize":
             # the collection is stored (members in the compact format, which gathers their per-maze metadata first); whether storing works is
             # C05's business - here only: the collection still agrees with its members afterwards
@@ -187,6 +206,10 @@ def check_history(case: dict):
         else:
             raise ValueError(kind)
     _observe(col, None, "C16:history")
+    if not edited:
+        mz = call("C16:mazes", lambda: col.mazes)
+        concat = [m for ds in col.maze_datasets for m in ds.mazes]
+        require(len(mz) == len(concat) and all(a is b for a, b in zip(mz, concat)), "C16:flattened-list", "flattened list differs from the concatenation")
     final = [len(d.mazes) for d in col.maze_datasets]
     return {"nt": edited and n_obs_after_edit >= 1 and sum(1 for x in final if x > 0) >= 2,
             "labels": sorted({o[0] for o in ops}) + (["edited-then-observed"] if n_obs_after_edit else [])}
@@ -203,10 +226,13 @@ def _histories(draw, maxm, maxlen):
         st.tuples(st.just("grow"), st.integers(0, n - 1)).map(list),
         st.tuples(st.just("replace"), st.integers(0, n - 1), st.integers(0, maxlen)).map(list),
         st.just(["update"]),
+        st.tuples(st.just("member_update"), st.integers(0, n - 1)).map(list),
+        st.tuples(st.just("tokens"), st.sampled_from([None, 0, 1, 2, 3, 5]), st.booleans()).map(list),
         st.tuples(st.just("serialize"), st.sampled_from([0, 1, 2, 100])).map(list),
     )
     ops = draw(st.lists(op, min_size=1, max_size=8))
-    return {"lens": lens, "grids": grids, "ops": [["observe"]] + ops}
+    # (the flattened list is a cached snapshot: a history may or may not look at the collection before it does anything else)
+    return {"lens": lens, "grids": grids, "ops": ([["observe"]] if draw(st.booleans()) else []) + ops}
 
 
 def check_huge(case: dict):
